@@ -1,7 +1,90 @@
-import DefconModel.Spec.Layer
+/-
+C09 — The unicode map always equals the inverse of the glyphs' unicodes.
+
+`UniOK s` says: if the layer's unicode data exists, it maps a code point to exactly the names of
+the glyphs currently in the layer (abstract content `abs s`) whose unicodes contain it.
+-/
+import DefconModel.Lemmas.Layer
+
 namespace DefconModel.Props.C09
 open DefconModel DefconModel.Layer
 
-theorem placeholder : abs {} "A" = none := by decide
+/-- Main theorem: in every state reachable from a well-formed layer by ANY sequence of glyph
+creation, replacement, insertion, deletion, renaming, unicodes assignment, reading, saving —
+with the unicode data first accessed at any point of the sequence — the map (once it exists) is
+exactly the inverse of the glyphs' unicodes: no stale names, none missing, no name twice. -/
+theorem uni_inverse (s : State) (ops : List Op) (h : Good s) (hops : OpsOK (abs s) ops) (m : Cmap)
+    (hm : (run s ops).uni = some m) :
+    (∀ c n, n ∈ namesAt m c ↔ ∃ r, abs (run s ops) n = some r ∧ c ∈ r.unicodes) ∧
+    (∀ c, (namesAt m c).Nodup) := by
+  have hg := (run_refines s ops h hops).1
+  obtain ⟨hw, hiff⟩ := hg.uni m hm
+  exact ⟨hiff, fun c => namesAt_nodup hw c⟩
+
+/-- … in particular from a freshly opened layer (nothing read, map not built). -/
+theorem uni_inverse_opened (disk : List (String × GRec)) (hk : (AL.keys disk).Nodup)
+    (hr : ∀ p ∈ disk, p.2.unicodes.Nodup) (ops : List Op) (hops : OpsOK (abs (opened disk)) ops) (m : Cmap)
+    (hm : (run (opened disk) ops).uni = some m) (c : Nat) (n : String) :
+    n ∈ namesAt m c ↔ ∃ r, abs (run (opened disk) ops) n = some r ∧ c ∈ r.unicodes := by
+  have hg : Good (opened disk) := by
+    refine ⟨?_, uniInv_none _, ?_⟩
+    · have habs : ∀ k, abs (opened disk) k = AL.get? disk k := by intro k; simp [abs, opened]
+      constructor
+      · exact hk
+      · simp [opened, AL.keys]
+      · simpa [opened, AL.keys] using hk
+      · simp [opened]
+      · intro m hm; simp [opened] at hm
+      · intro m hm; simp [opened] at hm
+      · intro k
+        rw [habs]
+        simp only [opened]
+        constructor
+        · intro hmem
+          have : k ∈ AL.keys disk := by simpa [AL.keys] using hmem
+          simp only [AL.keys, List.mem_map] at this
+          obtain ⟨⟨k', v⟩, hp, rfl⟩ := this
+          rw [AL.get?_of_mem_nodup hk hp]; rfl
+        · intro hs
+          cases hg : AL.get? disk k with
+          | none => simp [hg] at hs
+          | some v => simpa [AL.keys] using AL.mem_keys_of_get? hg
+      · intro k r hl; simp [opened] at hl
+    · intro n r hn
+      have : abs (opened disk) n = AL.get? disk n := by simp [abs, opened]
+      rw [this] at hn
+      exact hr _ (AL.mem_of_get? hn)
+  exact (uni_inverse (opened disk) ops hg hops m hm).1 c n
+
+/-- The lazily built map is correct at the moment it is built, whatever is loaded, deleted or
+pending at that moment. -/
+theorem first_access_exact (s : State) (h : Good s) (hn : s.uni = none) (c : Nat) (n : String) :
+    n ∈ namesAt (buildUni s) c ↔ ∃ r, abs s n = some r ∧ c ∈ r.unicodes :=
+  ((buildUni_spec h.wf) (buildUni s) rfl).2 c n
+
+/-- One step keeps the invariant (the induction step of `uni_inverse`, stated on its own). -/
+theorem uni_step (s : State) (op : Op) (h : Good s) (hop : OpOK (abs s) op) : UniOK (stepTotal s op) :=
+  (step_refines op h hop).1.uni
+
+/-- the two primitive updates, as set operations on the inverse map -/
+theorem add_exact (m : Cmap) (n n' : String) (vs : List Nat) (c : Nat) :
+    n' ∈ namesAt (uniAdd m n vs) c ↔ n' ∈ namesAt m c ∨ (n' = n ∧ c ∈ vs) := mem_uniAdd m n n' vs c
+
+theorem remove_exact (m : Cmap) (h : UniWF m) (n n' : String) (vs : List Nat) (c : Nat) :
+    n' ∈ namesAt (uniRemove m n vs) c ↔ n' ∈ namesAt m c ∧ ¬ (n' = n ∧ c ∈ vs) := mem_uniRemove h n n' vs c
+
+/-! ### non-vacuity -/
+
+def demoDisk : List (String × GRec) :=
+  [("A", { unicodes := [65] }), ("B", { unicodes := [66, 65] }), ("C", {})]
+
+def demoOps : List Op :=
+  [.delete "A", .touchUni, .rename "B" "D", .new "A", .setUnicodes "A" [66, 67], .insert "C" { unicodes := [65] }]
+
+example : OpsOK (abs (opened demoDisk)) demoOps := by decide
+example : (run (opened demoDisk) demoOps).uni = some [(66, ["D", "A"]), (65, ["D", "C"]), (67, ["A"])] := by decide
+/-- before the F4 fix the first access after deleting an unread glyph listed the stale name;
+the model of the fixed code does not -/
+example : (run (opened demoDisk) [.delete "A", .touchUni]).uni = some [(66, ["B"]), (65, ["B"])] := by decide
 
 end DefconModel.Props.C09
